@@ -6,6 +6,7 @@
 // Output (rank 0, gathered): PKG (dump of the package), FI/FD/FB (forward int/double/block 2),
 //   RS/RM/RL (reverse sum/max/select), and the same with prefix D for the derived package.
 #include "common_par.hpp"
+#include <algorithm>
 
 static std::string data_str(CommData* d, Topology* topo, bool local_ranks) {
     std::ostringstream o;
@@ -51,6 +52,38 @@ static void exercise(const std::string& cid, const std::string& pre, CommPkg* c,
     { std::vector<double>& r = c->communicate(xb, 2); emit_all(cid, pre + "FB", nums_str(r, 2 * m)); }
     { std::vector<int> xb2(2 * n); for (int i = 0; i < 2 * n; i++) xb2[i] = (int)xb[i];
       std::vector<int>& r = c->communicate(xb2, 2); emit_all(cid, pre + "FBI", ints_str(r, 2 * m)); }
+    // forward exchange of sparse rows: the entry with global id g carries the row {((5g + t) mod 11, g + t/4) : t < g mod 3}.
+    // FR: with values; FRP: pattern only through the array interface (empty value array, as the library's own callers do);
+    // FRQ: pattern only through the matrix interface on a matrix that does store values
+    {   CSRMatrix R(n, 11); R.idx1[0] = 0;
+        for (int i = 0; i < n; i++) { int g = lids[i];
+            for (int tt = 0; tt < g % 3; tt++) { R.idx2.push_back((5 * g + tt) % 11); R.vals.push_back(g + 0.25 * tt); }
+            R.idx1[i + 1] = (int)R.idx2.size(); }
+        R.nnz = (int)R.idx2.size();
+        auto rows_str = [&](CSRMatrix* r, bool vals) { std::ostringstream o;
+            for (int j = 0; j < m; j++) { int a = r->idx1[j], b = r->idx1[j + 1]; o << (j ? " " : "") << (b - a);
+                for (int k = a; k < b; k++) { o << " " << r->idx2[k]; if (vals) o << " " << num_str(r->vals[k]); } }
+            return o.str(); };
+        { CSRMatrix* r = c->communicate(&R); emit_all(cid, pre + "FR", rows_str(r, true)); delete r; }
+        { std::vector<double> none; CSRMatrix* r = c->communicate(R.idx1, R.idx2, none, 1, 1, false); emit_all(cid, pre + "FRP", rows_str(r, false)); delete r; }
+        { CSRMatrix* r = c->communicate(&R, false); emit_all(cid, pre + "FRQ", rows_str(r, false)); delete r; }
+    }
+    // reverse exchange of sparse rows: slot j of rank p carries the row {((3c + p) mod 13, p + 1 + j/8), ((3c + p + 5) mod 13, -j)}
+    // of c = colmap[j] (one entry when c is even); the owner of c receives the union of the rows sent for c
+    {   CSRMatrix R(m, 13); R.idx1[0] = 0;
+        for (int j = 0; j < m; j++) { int cg = colmap[j];
+            R.idx2.push_back((3 * cg + g_rank) % 13); R.vals.push_back(g_rank + 1 + 0.125 * j);
+            if (cg % 2) { R.idx2.push_back((3 * cg + g_rank + 5) % 13); R.vals.push_back(-1.0 * j); }
+            R.idx1[j + 1] = (int)R.idx2.size(); }
+        R.nnz = (int)R.idx2.size();
+        CSRMatrix* r = c->communicate_T(R.idx1, R.idx2, R.vals, n);
+        std::ostringstream o;
+        for (int i = 0; i < n; i++) { int a = r->idx1[i], b = r->idx1[i + 1];
+            std::vector<std::pair<int, double> > e; for (int k = a; k < b; k++) e.push_back(std::make_pair(r->idx2[k], r->vals[k]));
+            std::sort(e.begin(), e.end());
+            o << (i ? " " : "") << (b - a); for (size_t k = 0; k < e.size(); k++) o << " " << e[k].first << " " << num_str(e[k].second); }
+        emit_all(cid, pre + "RR", o.str()); delete r;
+    }
     // reverse: sum (double and int), max (int), select (int: every contribution to an entry carries the same value or -1)
     std::vector<double> yd(m); std::vector<int> yi(m), ysel(m);
     for (int j = 0; j < m; j++) { yi[j] = (g_rank + 1) * 100 + j; yd[j] = 0.25 * yi[j];
